@@ -5,8 +5,11 @@ import core, tlc, execpool, absval
 def main():
     core.build_harness()
     bad = 0
+    claimed = {c["property_id"] for c in json.load(open(os.path.join(core.ROOT, "MANIFEST.json")))["checks"]}
     for p in sorted(glob.glob(os.path.join(tlc.SPEC, "*.tla"))):
         mod = os.path.basename(p)[:-4]
+        # top-level modules of claimed checks (sany parses what they extend); others are work in progress
+        if not any(mod in (f"MC_{c}", f"Trace_{c}") for c in claimed): continue
         ok, out = tlc.sany(mod)
         print(f"[sany] {mod}: {'ok' if ok else 'FAILED'}")
         if not ok:
